@@ -816,6 +816,8 @@ def run(ctx: Ctx) -> None:
         if snapshot([y2]) != before2:
             ctx.violation("mutating the original through the public API changed an earlier tagify() copy", {"tree": d}, {})
 
+    dep_method_histories(ctx)
+
     # ---- consistency of the four string forms, and == ------------------------------------
     for it in range(ctx.budget(800, 10000)):
         d = rand_tree(rng, rng.choice([1, 2, 3]), None, False)
@@ -869,6 +871,61 @@ def _check_copy(ctx, orig, cp, d, rng, snap):
         cp.insert(0, Tag("mut"))
     if snap() != before:
         ctx.violation("mutating the fields, attributes or child list of copy.copy(x) changed x", {"tree": d}, {})
+
+
+def dep_method_histories(ctx: Ctx) -> None:
+    """The HTMLDependency read-only methods must give, in ANY call order and however often they are
+    repeated, what they give when called first on a fresh object (no process-wide memory): package-
+    and directory-sourced dependencies sharing names / versions / sources in all combinations."""
+    import posixpath
+    rng = ctx.rng
+    pkgdir = os.path.dirname(htmltools.__file__)
+    sources = [{"package": "htmltools", "subdir": "lib/react"}, {"package": "htmltools", "subdir": "lib/react-dom"},
+               {"package": "htmltools", "subdir": "lib"}, {"subdir": pkgdir}, {"href": "https://cdn.x/y"}, None]
+    for _ in range(ctx.budget(150, 2500)):
+        deps = []
+        for _ in range(rng.choice([2, 3, 4])):
+            src = rng.choice(sources)
+            kw = {"name": rng.choice(["lib", "lib", "other"]), "version": rng.choice(["1.0", "2.0", "1.0"]),
+                  "source": None if src is None else dict(src)}
+            if src is not None:
+                kw["script"] = {"src": "react.production.min.js"}
+            deps.append((kw, HTMLDependency(**kw)))
+        calls = []
+        for _ in range(rng.choice([3, 5, 8])):
+            i = rng.randrange(len(deps))
+            calls.append((i, rng.choice(["spm", "as_dict", "tags"]), rng.choice([None, "lib", "a/b"]), rng.random() < 0.5))
+        ctx.count(("dep-history", [k for k, _ in deps], calls), True, "dependency method call histories")
+        for i, what, prefix, iv in calls:
+            kw, d = deps[i]
+            fresh = HTMLDependency(**{**kw, "source": None if kw["source"] is None else dict(kw["source"])})
+            f = {"spm": lambda o: o.source_path_map(lib_prefix=prefix, include_version=iv),
+                 "as_dict": lambda o: o.as_dict(lib_prefix=prefix, include_version=iv),
+                 "tags": lambda o: str(o.as_html_tags(lib_prefix=prefix, include_version=iv))}[what]
+            got = safe_call(lambda: f(d))
+            # independent expectation for source_path_map
+            if what == "spm" and got[0] == "ok":
+                src = kw["source"]
+                if src is None:
+                    want = {"source": "", "href": ""}
+                elif "href" in src:
+                    want = {"source": "", "href": src["href"]}
+                else:
+                    base = os.path.join(pkgdir, src["subdir"]) if "package" in src else os.path.realpath(src["subdir"])
+                    href = kw["name"] + ("-" + kw["version"] if iv else "")
+                    want = {"source": base, "href": posixpath.join(prefix, href) if prefix else href}
+                if got[1] != want:
+                    ctx.violation("source_path_map() result depends on what was called before (or is not the source "
+                                  "directory / href of THIS dependency)", {"deps": [k for k, _ in deps], "calls": calls},
+                                  {"impl_output": got[1], "expected": want})
+                    break
+            # and in general: same as a fresh object asked first ... in a process where nothing else was asked:
+            # approximated by asking an equal fresh object now and requiring equality with an independent copy
+            ref = safe_call(lambda: f(fresh))
+            if repr(got) != repr(ref):
+                ctx.violation("an HTMLDependency method gives a different result on an equal, freshly built dependency",
+                              {"deps": [k for k, _ in deps], "calls": calls}, {"impl_output": repr(got)[:300], "fresh": repr(ref)[:300]})
+                break
 
 
 def _first_diff(a, b, path=""):
